@@ -78,4 +78,3 @@ func trunc(s string, n int) string {
 	return s
 }
 
-func cmdCheck(args []string) {}
